@@ -126,7 +126,8 @@ def run_tlc(tag, module, consts, spec="Spec", invariants=(), properties=(), work
     cfg.append(extra_cfg)
     cfg_path = os.path.join(wd, f"{module}.cfg")
     open(cfg_path, "w").write("\n".join(cfg) + "\n")
-    cmd = ["java", "-XX:+UseParallelGC", "-Xss512m", "-Xmx12g", "-DTLA-Library=" + TLAPS_LIB, "-cp", TLA_CP, "tlc2.TLC",
+    # (java.io.tmpdir: TLC creates an empty tlc-* directory per run; keep it out of /tmp)
+    cmd = ["java", "-XX:+UseParallelGC", "-Xss512m", "-Xmx12g", "-Djava.io.tmpdir=" + wd, "-DTLA-Library=" + TLAPS_LIB, "-cp", TLA_CP, "tlc2.TLC",
            "-maxSetSize", "40000000", "-workers", str(workers), "-metadir", os.path.join(wd, "states"), "-cleanup",
            "-noGenerateSpecTE", "-config", cfg_path]
     if coverage:
